@@ -109,9 +109,10 @@ static void xfwd_receive(struct xfwd *relay)
     if (rc < 0) {
 	if (errno != EAGAIN)
 	    xfwd_handle_err(relay, "Error receiving from XCM");
-    } else if (rc == 0)
+    } else if (rc == 0) {
+	relay->src_closed = true;
 	xfwd_handle_term(relay);
-    else {
+    } else {
 	relay->data_len = rc;
 	xfwd_await_output(relay);
     }
@@ -188,9 +189,55 @@ static void xfwd_stop(struct xfwd *relay)
     }
 }
 
+static void xrelay_try_finish_drain(struct xrelay *relay)
+{
+    int rc = xcm_finish(relay->drain_conn);
+
+    if (rc < 0 && errno == EAGAIN)
+	return;
+
+    event_del(&relay->drain_event);
+    relay->draining = false;
+
+    relay->err_cb(relay, 0, NULL, relay->err_cb_data);
+}
+
+static void xrelay_drain_active(int fd, short ev, void *arg)
+{
+    xrelay_try_finish_drain(arg);
+}
+
 static void xrelay_fwd_term(int reason, const char *msg, void *cb_data)
 {
     struct xrelay *relay = cb_data;
+
+    struct xfwd *closed_fwd = NULL;
+
+    if (relay->fwd0.src_closed)
+	closed_fwd = &relay->fwd0;
+    else if (relay->fwd1.src_closed)
+	closed_fwd = &relay->fwd1;
+
+    if (reason == 0 && closed_fwd != NULL && !relay->draining) {
+	/* The messages received prior to the close may still be
+	   (partly) buffered in the other connection. Flush them
+	   before the relay (and that connection) is torn down. */
+	relay->draining = true;
+	relay->drain_conn = closed_fwd->dst_conn;
+
+	xfwd_stop(&relay->fwd0);
+	xfwd_stop(&relay->fwd1);
+
+	event_assign(&relay->drain_event, relay->event_base,
+		     xcm_fd(relay->drain_conn), EV_READ|EV_PERSIST,
+		     xrelay_drain_active, relay);
+	event_add(&relay->drain_event, NULL);
+
+	xrelay_try_finish_drain(relay);
+
+	return;
+    }
+
     relay->err_cb(relay, reason, msg, relay->err_cb_data);
 }
 
@@ -202,7 +249,8 @@ struct xrelay *xrelay_create(struct xcm_socket *conn0, struct xcm_socket *conn1,
 
     *relay = (struct xrelay) {
 	.err_cb = err_cb,
-	.err_cb_data = cb_data
+	.err_cb_data = cb_data,
+	.event_base = event_base
     };
 
     xfwd_init(&relay->fwd0, conn0, conn1, &relay->cond0, &relay->cond1,
@@ -226,6 +274,11 @@ void xrelay_stop(struct xrelay *relay)
 {
     xfwd_stop(&relay->fwd0);
     xfwd_stop(&relay->fwd1);
+
+    if (relay->draining) {
+	event_del(&relay->drain_event);
+	relay->draining = false;
+    }
 }
 
 void xrelay_destroy(struct xrelay *relay)
